@@ -6,7 +6,7 @@ driver loop (every id visited, build only when available, each built node added 
 the same driver with the caller's strandedness, node storage keeps sequence / extensions / payload in lockstep; and
 the step function itself (complete decision table, as in C02.1): the neighbour it hands to the walk is the k-mer the
 recorded extension denotes, looked up under the caller's strandedness, and only when it is present and available."""
-from .. import dt_filter, dt_compress, dt_tables
+from .. import lemmas, dt_strings, dt_filter, dt_compress, dt_tables
 from . import common
 
 ASSUMPTIONS = ["extensions are symmetric (presupposed by the property)"]
@@ -31,3 +31,6 @@ def run(F, rep):
     # the statement quantifies over read sets and count thresholds: the k-mer table the graph is built from is filter_kmers' (pass tiling,
     # grouping, canonicalisation, emission)
     rep.run(dt_filter.filter_tables, F, rep, "C01.6")
+    # every node sequence is stored through PackedDnaStringSet::add (and whatever DnaString operation it appends with)
+    rep.run(dt_strings.packed_set_add, F, rep, "C01.7")
+    rep.run(lemmas.dnastring_lemmas, F, rep, which={"push", "extend"})
